@@ -370,6 +370,62 @@ func runC09(c *runCtx) {
 		}
 		ast.ReleaseAST(t1)
 	}
+	// lists returned by the extraction API stay the caller's: extracting from another tree afterwards does not rewrite them
+	{
+		pairs := [][2]string{
+			{"SELECT alpha, beta, gamma(delta) FROM sch.tab1 t1 JOIN tab2 ON t1.k = tab2.k WHERE eps > 1", "SELECT uniform, victor, xray(zulu) FROM other.tab9 o JOIN tab8 ON o.q = tab8.q WHERE yank < 2"},
+			{"SELECT a FROM t", "SELECT b1, b2, b3, b4, b5, b6, f1(b7), f2(b8) FROM u1, u2, u3 WHERE b9 = 1"},
+			{"UPDATE acc SET bal = bal + 1 WHERE id IN (SELECT id FROM pend)", "DELETE FROM logs WHERE ts < now() AND lvl = lower(tag)"},
+		}
+		type api struct {
+			name string
+			f    func(t *ast.AST) []string
+		}
+		flat := func(xs any) []string { return []string{fmt.Sprintf("%+v", xs)} }
+		apis := []api{
+			{"ExtractTables", func(t *ast.AST) []string { return gosqlx.ExtractTables(t) }},
+			{"ExtractColumns", func(t *ast.AST) []string { return gosqlx.ExtractColumns(t) }},
+			{"ExtractFunctions", func(t *ast.AST) []string { return gosqlx.ExtractFunctions(t) }},
+		}
+		for _, pr := range pairs {
+			ta, ea := gosqlx.Parse(pr[0])
+			tb, eb := gosqlx.Parse(pr[1])
+			if ea != nil || eb != nil {
+				continue
+			}
+			for _, a := range apis {
+				for rep := 0; rep < 50; rep++ {
+					held := a.f(ta)
+					snap := append([]string{}, held...)
+					for _, b := range apis {
+						_ = b.f(tb)
+					}
+					_ = gosqlx.ExtractMetadata(tb)
+					res.count(fmt.Sprintf("held-list|%s|%s|%d", a.name, pr[0], rep), true)
+					if strings.Join(held, "\x00") != strings.Join(snap, "\x00") {
+						res.fail("held-list-modified:"+a.name, "a list returned by the extraction API changed when names were extracted from another tree", map[string]any{"held_from": pr[0], "then": pr[1]},
+							map[string]any{"before": snap, "after": held})
+						break
+					}
+				}
+			}
+			// the structured results: qualified names and the metadata record
+			for rep := 0; rep < 50; rep++ {
+				hq1, hq2, hm := gosqlx.ExtractTablesQualified(ta), gosqlx.ExtractColumnsQualified(ta), gosqlx.ExtractMetadata(ta)
+				s1, s2, s3 := flat(hq1)[0], flat(hq2)[0], flat(*hm)[0]
+				_ = gosqlx.ExtractTablesQualified(tb)
+				_ = gosqlx.ExtractColumnsQualified(tb)
+				_ = gosqlx.ExtractMetadata(tb)
+				_ = gosqlx.ExtractColumns(tb)
+				if flat(hq1)[0] != s1 || flat(hq2)[0] != s2 || flat(*hm)[0] != s3 {
+					res.fail("held-list-modified:structured", "a structured extraction result (qualified names / metadata) changed when another tree was analysed", map[string]any{"held_from": pr[0], "then": pr[1]}, nil)
+					break
+				}
+			}
+			ast.ReleaseAST(ta)
+			ast.ReleaseAST(tb)
+		}
+	}
 	// tokens handed to a parsing entry point stay the caller's: no entry point writes into them
 	for i, sqlText := range append([]string{"SELECT url, owner, member, policy, until, reset FROM t, LATERAL (SELECT 1) l WHERE a = ANY (SELECT 1) OR b = SOME (SELECT 2)",
 		"SELECT a FROM t LEFT OUTER JOIN u ON t.i = u.i GROUP BY a ORDER BY a", "SELECT owner.url FROM owner", "SELECT \"select\", `from` FROM t"}, corpus...) {
